@@ -57,7 +57,7 @@ static size_t run_op(ZSTD_CCtx* c, const op_t* o, u8* dst, size_t* srcLen) {
 
 static void body_compress(void) {
     int len = 1 + vx_choose(g_depth); op_t ops[6];
-    for (int i = 0; i < len; i++) { ops[i].shape = vx_choose(7); ops[i].size = vx_deviate(3); if (i < len - 1 && ops[i].size == 0) ops[i].size = 2; ops[i].strat = 1 + vx_choose(9); ops[i].api = vx_deviate(5); }
+    for (int i = 0; i < len; i++) { ops[i].shape = vx_choose(7); ops[i].size = vx_deviate(3); if (i < len - 1 && ops[i].size == 0) ops[i].size = 2; if (i < len - 1 && !vx_thorough) { static const int FS[] = {2, 5, 8}; ops[i].strat = FS[vx_choose(3)]; } else ops[i].strat = 1 + vx_choose(9); ops[i].api = vx_deviate(5); }      /* quick tier: the frames before the last one from three strategies (hash, chain, tree) */
     char hs[200] = ""; size_t ho = 0; for (int i = 0; i < len; i++) ho += snprintf(hs + ho, sizeof hs - ho, "(s%d,%zuK,strat%d,api%d) ", ops[i].shape, SIZES[ops[i].size] >> 10, ops[i].strat, ops[i].api);
     vx_label("%s", hs);
     ZSTD_CCtx* c = ZSTD_createCCtx(); long corrections = 0;
@@ -87,7 +87,7 @@ static void body_compress(void) {
 /* --mode 2: a context that has already seen 1.0 - 1.1 MB (3 frames of 300 KB and 5..10 of 20 KB): with the lowered index limit of this build the next frame starts beyond
  * "too close to the maximum index" and the match state is reset pre-emptively; every (shape, size, strategy, api) as that next frame */
 static void body_marathon(void) {
-    int pre = 8 + vx_choose(6), preStrat = vx_choose(2) ? 2 : 5; op_t o; o.shape = vx_choose(7); o.size = 1 + vx_choose(2); o.strat = 1 + vx_choose(9); o.api = vx_choose(5);
+    static const int PRE[] = {8, 10, 13}; int pre = vx_thorough ? 8 + vx_choose(6) : PRE[vx_choose(3)], preStrat = vx_choose(2) ? 2 : 5; op_t o; o.shape = vx_choose(7); o.size = 1 + vx_choose(2); o.strat = 1 + vx_choose(9); o.api = vx_choose(5);
     vx_label("marathon 3 x 300K + %d x 20K strat%d, then (s%d,%zuK,strat%d,api%d)", pre - 3, preStrat, o.shape, SIZES[o.size] >> 10, o.strat, o.api);
     ZSTD_CCtx* c = ZSTD_createCCtx(); op_t w = { 0, 2, preStrat, 0 }; size_t n, r = 0;
     for (int i = 0; i < pre; i++) { w.shape = i % 5; w.size = i < 3 ? 2 : 1;      /* 3 x 300 KB + (5..10) x 20 KB: the index ends between the "too close" mark (995 328) and the limit (1 126 400) */
